@@ -9,6 +9,16 @@ kind == "fuzz": native go fuzzing (thorough only): fuzz (target), fuzztime.
 Q, T = "quick", "thorough"
 
 PROPS = {
+    "C17": {"engines": [
+        {"name": "loopback-session", "pkg": "internal/bgp/native", "run": "^TestVerifC17Session$", "race": True, "shrinktime": "20s",
+         "checks": {Q: 600, T: 48000}, "shards": {Q: 4, T: 16}, "timeout": {Q: 900, T: 5400}},
+    ]},
+    "C19": {"engines": [
+        {"name": "frr-debouncer", "pkg": "internal/bgp/frr", "run": "^TestVerifC19Debounce$", "go": "go1.26.8",
+         "checks": {Q: 10000, T: 1600000}, "shards": {Q: 2, T: 16}},
+        {"name": "frrk8s-debouncer", "pkg": "internal/k8s/controllers", "run": "^TestVerifC19FRRK8s$", "go": "go1.26.8",
+         "checks": {Q: 6000, T: 800000}, "shards": {Q: 2, T: 16}},
+    ]},
     "C15": {"engines": [
         {"name": "frrk8s-witness", "pkg": "internal/bgp/frrk8s", "run": "^TestVerifC15Witness$", "rapid": False,
          "checks": {Q: 1, T: 1}, "shards": {Q: 1, T: 1}},
